@@ -1,5 +1,10 @@
 
 #[cfg(rce_verif)]
 pub fn rce_verif_tables() -> Vec<Vec<u64>> {
-    MVV_LVA_TABLE.get_or_init(init_mvv_lva).iter().map(|r| r.to_vec()).collect()
+    // element type agnostic (u16/u32/u64 ...): values are widened for the dump
+    MVV_LVA_TABLE
+        .get_or_init(init_mvv_lva)
+        .iter()
+        .map(|r| r.iter().map(|&x| u64::try_from(x).unwrap_or(u64::MAX)).collect())
+        .collect()
 }
